@@ -49,6 +49,18 @@ def sched_chain(rng, coin, shape):
                 uid[0] += 1
             t = Tx(h, [TxIn(rbytes(rng, 32), 0, b"", 0xFFFFFFFF)], outs, ti + 1)
             txs.append(t)
+        if ntx >= 3:
+            # ties for both records of the report (biggest transaction by value and by size): a champion that beats everything
+            # before it and twins of it - next to it and far from it - that differ in the spent outpoint only. "First one on ties"
+            # must not depend on where a parallel reduction happens to cut the block.
+            k = rng.randrange(len(txs))
+            champ = txs[k]
+            champ.outs = list(champ.outs) + [TxOut(10**15 + h * 10**9, b"\x6a" + gen.push(b"champion " * 25))]
+            for pos in sorted({min(len(txs), k + 1), rng.randrange(k + 1, len(txs) + 1), len(txs)}, reverse=True):
+                txs.insert(pos, Tx(h, [TxIn(rbytes(rng, 32), 0, b"", 0xFFFFFFFF)], list(champ.outs), 0))
+            for ti, t in enumerate(txs):
+                t.locktime = ti + 1
+                t.invalidate()
         blk = cb.add_block(txs=txs, coinbase_outs=[TxOut(10**12 + h, gen.std_script(rng, coin, "p2pkh"))])
         blk.txs[0].version = h
         blk.txs[0].locktime = 0
